@@ -394,6 +394,17 @@ func (x *Explorer) libModel(st *State, f *Frame, ins ssa.Instruction, key string
 		}
 		st.note("errors.Join: chain/message sets not modelled")
 		return r, true
+	case "google.golang.org/protobuf/proto.Unmarshal":
+		// arbitrary decoding result: every field of the target message becomes unconstrained
+		if iv, ok := args[1].(VIface); ok {
+			if p, ok := iv.Dyn.(VPtr); ok && p.Alloc == nil {
+				st.store(p, st.freshVal(e.pointee(p), "unmarshalled"))
+			} else {
+				st.note("proto.Unmarshal into an unknown message: not havocked")
+			}
+		}
+		x.assumed["proto.Unmarshal is total: it returns an error or fills the message with arbitrary field values"]++
+		return st.freshVal(sig.Results().At(0).Type(), "unmarshal_err"), true
 	case "bytes.Equal":
 		a, b := args[0].(VSlice), args[1].(VSlice)
 		return VInt{T: Eq(st.bval(a), st.bval(b))}, true
